@@ -634,6 +634,16 @@ example : SortedBy (pairLess lessByCoordinate) aOut ∧
 example : KeySorted ([rA 4 (some 0) 1 (some 1) 0, rA 5 (some 0) 7 none 1, rA 6 (some 1) 0 (some 0) 2].map (relink (some aLink) 1)) :=
   relinked_sorted_of_monotone aLink 1 _ (by intro x y h; simp [aLink]; omega) (by simp [KeySorted, rA, keyLt, coordKey])
 
+/-- positions are integers: a placed record without a position (Pos = -1, SAM POS 0) sorts before every other
+position of its reference, in front of the next reference, and an unplaced record (also Pos = -1) after all -/
+example : lessByCoordinate (rA 1 (some 0) (-1) none 0) (rA 2 (some 0) 0 none 1) = true ∧
+    lessByCoordinate (rA 2 (some 0) 0 none 1) (rA 1 (some 0) (-1) none 0) = false ∧
+    lessByCoordinate (rA 2 (some 0) 2147483647 none 1) (rA 1 (some 1) (-1) none 0) = true ∧
+    lessByCoordinate (rA 1 (some 1) (-1) none 0) (rA 3 none (-1) none 2) = true ∧
+    lessByCoordinate (rA 3 none (-1) none 2) (rA 1 (some 0) (-1) none 0) = false := by decide
+example : keyLt (coordKey (rA 1 (some 0) (-1) none 0)) (coordKey (rA 2 (some 0) 0 none 1)) :=
+  (coordinate_order_spec _ _).1 (by decide)
+
 /-! Scenario B — three unsorted inputs, concatenated; all end cleanly.
 Scenario C — the same with the second input returning a record-level error (not sticky) after its first record. -/
 
